@@ -324,11 +324,22 @@ func c09OnePop(p *Prog, r *Report) {
 		r.Undecided("C09.c", kCoreDeleteOld, "", "core.DeleteOld not found")
 		return
 	}
-	f := p.FlatOf(fi)
+	// the walk may sit in a helper spliced into the graph (one shared by the collector and the rollback)
+	f := p.FlatInl(fi)
 	var loop *ast.RangeStmt
-	for _, rs := range rangeLoops(fi.Decl.Body) {
-		if c, ok := ast.Unparen(rs.X).(*ast.CallExpr); ok && p.callIs(fi.Pkg, c, kIterBefore) {
-			loop = rs
+	scopes := []*ast.BlockStmt{fi.Decl.Body}
+	seenBody := map[string]bool{}
+	for _, ii := range f.Inl {
+		if h := p.Func(ii.Callee); h != nil && h.Decl != nil && h.Decl.Body != nil && !seenBody[ii.Callee] {
+			seenBody[ii.Callee] = true
+			scopes = append(scopes, h.Decl.Body)
+		}
+	}
+	for _, sc := range scopes {
+		for _, rs := range rangeLoops(sc) {
+			if c, ok := ast.Unparen(rs.X).(*ast.CallExpr); ok && p.callIs(fi.Pkg, c, kIterBefore) {
+				loop = rs
+			}
 		}
 	}
 	if loop == nil {
@@ -367,6 +378,15 @@ func c09OnePop(p *Prog, r *Report) {
 	}
 	// no PopBack in the collector
 	backs := f.CallNodes("(*internal/model/core.file).PopBack")
+	// and no PopFront outside the walker's loop on any feasible path (nil-facts: a branch for "no horizon" of a
+	// helper that is given the address of the horizon is not feasible)
+	feasible := f.ReachNil([]int{f.Entry}, nil)
+	for _, id := range f.CallNodes("(*internal/model/core.file).PopFront") {
+		a := f.Nodes[id].Ast
+		if feasible[id] && (a.Pos() < loop.Body.Pos() || a.End() > loop.Body.End()) {
+			r.Viol("C09.c", kCoreDeleteOld+"#pop-outside-the-walk", p.pos(a), "the collector pops a version outside the loop over IterateBeforeSeq: a version is removed without the retention guard having yielded it")
+		}
+	}
 	r.Check(atLeast && atMost && len(backs) == 0, "C09.c", kCoreDeleteOld+"#one-pop", p.pos(loop), "exactly one PopFront per yielded version",
 		fmt.Sprintf("the collection loop does not pop exactly one front node per yielded version (at least one: %v, at most one: %v, PopBack calls: %d): versions are skipped or the newest one is removed", atLeast, atMost, len(backs)))
 }
@@ -497,14 +517,14 @@ func c09Mirror(p *Prog, r *Report) {
 		}
 		// the variable holding the list op's result (pops)
 		var resObj types.Object
-		ast.Inspect(fi.Decl.Body, func(x ast.Node) bool {
-			if as, ok := x.(*ast.AssignStmt); ok && len(as.Rhs) == 1 && len(as.Lhs) == 1 {
+		for _, gn := range f.Nodes {
+			if as, ok := gn.Ast.(*ast.AssignStmt); ok && len(as.Rhs) == 1 && len(as.Lhs) == 1 {
 				if c, ok := ast.Unparen(as.Rhs[0]).(*ast.CallExpr); ok && p.callIs(fi.Pkg, c, m.listOp) {
 					resObj = objOf(info, as.Lhs[0])
 				}
 			}
-			return true
-		})
+		}
+		const mirrorLen = 5 // abstract length of the mirror before the operation
 		good := true
 		detail := ""
 		for _, searchable := range []bool{true, false} {
@@ -529,7 +549,40 @@ func c09Mirror(p *Prog, r *Report) {
 						}
 						return &Val{Nil: true}, true
 					}
+					if c, ok := e.(*ast.CallExpr); ok && len(c.Args) == 1 && isArr(c.Args[0]) {
+						if id, ok := c.Fun.(*ast.Ident); ok && id.Name == "len" {
+							return intVal(mirrorLen), true
+						}
+					}
 					return nil, false
+				}
+				// bounds written with locals (last := len(arr)-1; arr = arr[:last]) are read off the evaluated values
+				evalInt := func(e ast.Expr) (int64, bool) {
+					v, err := env.Eval(e)
+					if err != nil || v == nil || v.C == nil {
+						return 0, false
+					}
+					return constant.Int64Val(v.C)
+				}
+				shapeOf := func(e ast.Expr) string {
+					sh := arrShapeWith(info, e, isArr)
+					if se, ok := ast.Unparen(e).(*ast.SliceExpr); ok && strings.HasPrefix(sh, "other(") && isArr(se.X) && se.Max == nil {
+						lo, hi := int64(0), int64(mirrorLen)
+						okb := true
+						if se.Low != nil {
+							lo, okb = evalInt(se.Low)
+						}
+						if se.High != nil && okb {
+							hi, okb = evalInt(se.High)
+						}
+						switch {
+						case okb && lo == 0 && hi == mirrorLen-1:
+							return "drop-last"
+						case okb && lo == 1 && hi == mirrorLen:
+							return "reslice-from-1"
+						}
+					}
+					return sh
 				}
 				visited, _, err := f.WalkPath(env)
 				if err != nil {
@@ -544,7 +597,7 @@ func c09Mirror(p *Prog, r *Report) {
 						if p.callIs(fi.Pkg, c, m.listOp) {
 							listCalled = true
 						}
-						if idn, ok := c.Fun.(*ast.Ident); ok && idn.Name == "copy" && len(c.Args) == 2 && arrShapeWith(info, c.Args[1], isArr) == "reslice-from-1" {
+						if idn, ok := c.Fun.(*ast.Ident); ok && idn.Name == "copy" && len(c.Args) == 2 && shapeOf(c.Args[1]) == "reslice-from-1" {
 							if isArr(c.Args[0]) {
 								shape += "shift;"
 							}
@@ -553,7 +606,7 @@ func c09Mirror(p *Prog, r *Report) {
 					if as, ok := a.(*ast.AssignStmt); ok && len(as.Lhs) == 1 && f.Nodes[id].Synth == "" {
 						if isArr(as.Lhs[0]) {
 							touched = true
-							shape += arrShapeWith(info, as.Rhs[0], isArr) + ";"
+							shape += shapeOf(as.Rhs[0]) + ";"
 						}
 					}
 				}
